@@ -26,6 +26,7 @@ type c18Case struct {
 	Variant  string   `json:"variant"` // crafted Via variant for topology single
 	Others   []string `json:"others"`  // other hops' elements
 	HTTP10   bool     `json:"http10"`
+	NomVia   bool     `json:"nominate_via"`   // (loop topologies) the client's request nominates Via in its Connection field
 	ConnHdr  bool     `json:"connect_header"` // --connect-header configured (the transport's GetProxyConnectHeader returns a field)
 	WOne     int      `json:"w_one"`
 	WRand    int      `json:"w_rand"`
@@ -51,6 +52,7 @@ func genC18(t *tape.Tape, tier string) any {
 	}
 	c.HTTP10 = t.Chance(1, 8) && c.Kind == "http"
 	c.ConnHdr = t.Chance(1, 3)
+	c.NomVia = t.Chance(1, 4)
 	c.WOne = t.Pick(6, 2, 1)
 	c.WRand = t.Pick(2, 4, 2) * 2
 	return c
@@ -132,6 +134,11 @@ func runC18(env *core.Env, ci any) {
 		}
 		for _, v := range via {
 			fmt.Fprintf(&sb, "Via: %s\r\n", v)
+		}
+		if c.NomVia && c.Topology != "single" {
+			// Via named as hop-by-hop by the client (RFC 9110 7.6.1 allows any field name there): the client's chain is
+			// dropped, but the element this instance adds must survive, or the loop is not cut at its first repetition
+			sb.WriteString("Via: 1.1 client-side-hop\r\nConnection: keep-alive, Via\r\n")
 		}
 		sb.WriteString("\r\n")
 		if _, err := conn.Write([]byte(sb.String())); err != nil {
